@@ -756,6 +756,48 @@ pub fn prepare_aggregation(
     })
 }
 
+/// Translates a LIKE pattern into an anchored regex. `_` matches any single character and `%` any sequence of
+/// characters. `\_` is a literal underscore and `%%` a literal percent sign; an odd run of percent signs is read as
+/// literal percent signs plus one wildcard on either side of them.
+fn like_pattern_to_regex(pattern: &str) -> String {
+    let mut regex = String::from("(?s)^");
+    let chars: Vec<char> = pattern.chars().collect();
+    let mut i = 0;
+    while i < chars.len() {
+        match chars[i] {
+            '\\' if i + 1 < chars.len() && chars[i + 1] == '_' => {
+                regex.push('_');
+                i += 2;
+            }
+            '_' => {
+                regex.push('.');
+                i += 1;
+            }
+            '%' => {
+                let mut run = 1;
+                while i + run < chars.len() && chars[i + run] == '%' {
+                    run += 1;
+                }
+                let literals = "%".repeat(run / 2);
+                if run % 2 == 0 {
+                    regex.push_str(&literals);
+                } else if literals.is_empty() {
+                    regex.push_str(".*");
+                } else {
+                    regex.push_str(&format!("(?:{}.*|.*{})", literals, literals));
+                }
+                i += run;
+            }
+            c => {
+                regex.push_str(&regex::escape(&c.to_string()));
+                i += 1;
+            }
+        }
+    }
+    regex.push('$');
+    regex
+}
+
 pub fn order_preserving(
     (plan, t): (TypedBufferRef, Type),
     planner: &mut QueryPlanner,
@@ -1240,37 +1282,7 @@ impl QueryPlan {
             }
             Func2(Like, ref expr, ref pattern) => match pattern {
                 box Const(RawVal::Str(pattern)) => {
-                    let mut pattern = pattern.to_string();
-                    pattern = regex::escape(&pattern);
-                    pattern = Regex::new(r"([^\\])_")
-                        .unwrap()
-                        .replace_all(&pattern, "$1.")
-                        .to_string();
-                    pattern = Regex::new(r"\\_")
-                        .unwrap()
-                        .replace_all(&pattern, "_")
-                        .to_string();
-                    while pattern.contains("%%%%") {
-                        pattern = pattern.replace("%%%%", "%%");
-                    }
-                    pattern = pattern.replace("%%%", "(%.*)|(.*%)");
-                    pattern = Regex::new(r"([^%])%([^%])")
-                        .unwrap()
-                        .replace_all(&pattern, "$1.*$2")
-                        .to_string();
-                    pattern = Regex::new(r"^%([^%])")
-                        .unwrap()
-                        .replace_all(&pattern, ".*$1")
-                        .to_string();
-                    pattern = Regex::new(r"([^%])%$")
-                        .unwrap()
-                        .replace_all(&pattern, "$1.*")
-                        .to_string();
-                    pattern = Regex::new(r"%%")
-                        .unwrap()
-                        .replace_all(&pattern, "%")
-                        .to_string();
-                    pattern = format!("^{}$", pattern);
+                    let pattern = like_pattern_to_regex(pattern);
                     let (mut plan, t) =
                         QueryPlan::compile_expr(expr, filter, columns, column_len, planner)?;
                     if t.decoded != BasicType::String {
